@@ -63,6 +63,16 @@ Section Path.
   Lemma pack_tick b : (if c_people cf =? 0 then b_tick b else pack cf author (b_tick b)) = pack cf author (b_tick b).
   Proof. unfold pack. destruct (c_people cf =? 0); reflexivity. Qed.
 
+  Definition pflag (seq : list line) : bool :=
+    match old_exists A last seq, path_exists A c seq with
+    | false, true => true
+    | true, true => 0 <? cntI o n seq + Z.of_nat (length (deadv o n ov seq))
+    | _, _ => false
+    end.
+
+  Lemma KR_gh t f a a' b0 b0' : s_gh a = s_gh a' -> s_gh b0 = s_gh b0' -> KR cf t f a b0 -> KR cf t f a' b0'.
+  Proof. unfold KR. intros -> ->. auto. Qed.
+
   Lemma path_step b s p seq b' s' :
     pgood (old_exists A last seq) o ov (b_files b) p seq ->
     (old_exists A last seq = true -> path_exists A c seq = true) ->
@@ -79,10 +89,12 @@ Section Path.
           0 <= tp cf (ov l) <= tp cf (pack cf author (b_tick b))) ->
        gh_ok T (s_gh s')) /\
     b_merged b' = (if (b_tick b =? mark) && touched A last c seq then aset (b_merged b) p true else b_merged b) /\
-    b_mauthor b' = b_mauthor b.
+    b_mauthor b' = b_mauthor b /\
+    ((is_mark (pack cf author (b_tick b)) = false -> forall l, In l seq -> o l = true -> is_mark (ov l) = false) ->
+     KR cf (pack cf author (b_tick b)) (pflag seq) s s').
   Proof.
     set (t := pack cf author (b_tick b)).
-    intros Hg Hmono E. unfold change_of_path in E. unfold touched.
+    intros Hg Hmono E. unfold change_of_path in E. unfold touched, pflag.
     destruct (old_exists A last seq) eqn:Eold, (path_exists A c seq) eqn:Enew.
     - (* both exist *)
       destruct Hg as [hd Hf]. cbn [pgood] in *.
@@ -96,10 +108,11 @@ Section Path.
         { exists hd. rewrite Hf. f_equal. f_equal. rewrite (filter_ext_in _ _ seq Hon).
           apply map_ext_in. intros l Hin. apply filter_In in Hin. destruct Hin as [Hin Hn].
           unfold nv. rewrite (Hon l Hin), Hn. reflexivity. }
-        split; [auto|]. split; [auto|]. split; [|split; [auto|split; [rewrite andb_false_r; reflexivity|reflexivity]]]. intros P.
-        rewrite cntI_zero by (intros l Hin; rewrite (Hon l Hin); destruct (n l); reflexivity).
-        rewrite deadv_nil by (intros l Hin; rewrite (Hon l Hin); destruct (n l); reflexivity).
-        rewrite eff_0. unfold effs. cbn. lia.
+        assert (Ec0 : cntI o n seq = 0) by (apply cntI_zero; intros l Hin; rewrite (Hon l Hin); destruct (n l); reflexivity).
+        assert (Ed0 : deadv o n ov seq = []) by (apply deadv_nil; intros l Hin; rewrite (Hon l Hin); destruct (n l); reflexivity).
+        split; [auto|]. split; [auto|]. split; [|split; [auto|split; [rewrite andb_false_r; reflexivity|split; [reflexivity|]]]].
+        { intros P. rewrite Ec0, Ed0, eff_0. unfold effs. cbn. lia. }
+        intros _. rewrite Ec0, Ed0. cbn. apply KR_refl.
       + (* a modification *)
         cbn [handle_changes] in E.
         destruct (handle_modification cf author b s p _ _ _) as [[b1 s1]| |] eqn:E1; try discriminate.
@@ -129,7 +142,12 @@ Section Path.
           intros Hm v Hin Hmv. unfold f0 in Hin. cbn [f_vals] in Hin. apply in_map_iff in Hin.
           destruct Hin as (l & <- & Hl). apply filter_In in Hl. apply Hvals; tauto. }
         { unfold with_files. cbn [b_merged negb]. rewrite andb_true_r. unfold b0. destruct (b_tick b =? mark); reflexivity. }
+        split.
         { unfold with_files. cbn [b_mauthor]. unfold b0. destruct (b_tick b =? mark); reflexivity. }
+        intros Hnm. eapply KR_ext; [|apply (run_hunks_KR cf t _ _ _ _ _ _ E2)].
+        { rewrite (tflag_hunks3 o n ov) by lia. reflexivity. }
+        intros Hm v Hin. unfold f0 in Hin. cbn [f_vals] in Hin. apply in_map_iff in Hin.
+        destruct Hin as (l & <- & Hl). apply filter_In in Hl. apply Hnm; tauto.
     - (* the path disappears: excluded *)
       specialize (Hmono eq_refl). discriminate.
     - (* a new path *)
@@ -163,14 +181,15 @@ Section Path.
         assert (Ecnt : cntI o n seq = Z.of_nat (length (content A c seq))).
         { unfold cntI, count, content. f_equal. f_equal. apply filter_ext_in. intros l Hin. rewrite (Ho l Hin). reflexivity. }
         rewrite Ecnt. unfold effs. cbn. lia. }
-      split; [|split; [exact Hb1m|exact Hb1a]].
-      intros T Hok HtT _. rewrite Hs1. eapply update_time_ok; eauto; [|rewrite Hgh; exact Hok].
-      intros Hm _. specialize (HtT Hm). lia.
+      split; [|split; [exact Hb1m|split; [exact Hb1a|]]].
+      { intros T Hok HtT _. rewrite Hs1. eapply update_time_ok; eauto; [|rewrite Hgh; exact Hok].
+        intros Hm _. specialize (HtT Hm). lia. }
+      intros _. apply (KR_gh t true s0 s s2 s1); auto. eapply update_time_KR; eauto.
     - (* absent before and after *)
       cbn [pgood] in *. cbn [handle_changes] in E. injection E as <- <-.
       assert (Ho : forall l, In l seq -> o l = false) by (apply old_not_exists; auto).
       assert (Hn : forall l, In l seq -> n l = false) by (apply new_not_exists; auto).
-      split; auto. split; auto. split; auto. split; [|split; [auto|split; [rewrite andb_false_r; reflexivity|reflexivity]]]. intros P.
+      split; auto. split; auto. split; auto. split; [|split; [auto|split; [rewrite andb_false_r; reflexivity|split; [reflexivity|intros _; apply KR_refl]]]]. intros P.
       rewrite cntI_zero by (intros l Hin; rewrite (Hn l Hin); apply andb_false_r).
       rewrite deadv_nil by (intros l Hin; rewrite (Ho l Hin); reflexivity).
       rewrite eff_0. unfold effs. cbn. lia.
@@ -197,16 +216,18 @@ Section Path.
        (is_mark (pack cf author (b_tick b)) = false -> forall pl l, In pl paths -> In l (snd pl) -> o l = true ->
           is_mark (ov l) = false -> 0 <= tp cf (ov l) <= tp cf (pack cf author (b_tick b))) ->
        gh_ok T (s_gh s')) /\
-    b_merged b' = merged_after (b_tick b) paths (b_merged b) /\ b_mauthor b' = b_mauthor b.
+    b_merged b' = merged_after (b_tick b) paths (b_merged b) /\ b_mauthor b' = b_mauthor b /\
+    ((is_mark (pack cf author (b_tick b)) = false -> forall pl l, In pl paths -> In l (snd pl) -> o l = true -> is_mark (ov l) = false) ->
+     KR cf (pack cf author (b_tick b)) (existsb (fun pl => pflag (snd pl)) paths) s s').
   Proof.
     induction paths as [|[p seq] paths IH]; intros b s b' s' Hnd Hg Hmono E.
-    - cbn in E. injection E as <- <-. split; [intros ? []|]. split; auto. split; auto. split; [|auto].
+    - cbn in E. injection E as <- <-. split; [intros ? []|]. split; auto. split; auto. split; [|split; [auto|split; [auto|split; [auto|intros _; apply KR_refl]]]].
       intros P. cbn [map flat_map sum_z fold_right]. rewrite eff_0. unfold effs. cbn. lia.
     - cbn [flat_map fst snd] in E. rewrite handle_changes_app in E.
       destruct (handle_changes cf author (change_of_path A last c p seq) b s) as [[b1 s1]| |] eqn:E1; try discriminate.
       inversion Hnd as [|? ? Hnotin Hnd']; subst.
       destruct (path_step b s p seq b1 s1 (Hg (p, seq) (or_introl eq_refl)) (Hmono (p, seq) (or_introl eq_refl)) E1)
-        as (P1 & P2 & P3 & P4 & P5 & P6 & P7).
+        as (P1 & P2 & P3 & P4 & P5 & P6 & P7 & P8).
       assert (Hg1 : forall pl, In pl paths -> pgood (old_exists A last (snd pl)) o ov (b_files b1) (fst pl) (snd pl)).
       { intros pl Hin. pose proof (Hg pl (or_intror Hin)) as Hpl. unfold pgood in *.
         assert (Hne : fst pl <> p).
@@ -214,8 +235,8 @@ Section Path.
         rewrite (P2 (fst pl) Hne). exact Hpl. }
       assert (Hm1 : forall pl, In pl paths -> old_exists A last (snd pl) = true -> path_exists A c (snd pl) = true).
       { intros pl Hin. apply Hmono. right; auto. }
-      destruct (IH b1 s1 b' s' Hnd' Hg1 Hm1 E) as (Q1 & Q2 & Q3 & Q4 & Q5 & Q6 & Q7).
-      rewrite P3 in Q1, Q3, Q4, Q5, Q6.
+      destruct (IH b1 s1 b' s' Hnd' Hg1 Hm1 E) as (Q1 & Q2 & Q3 & Q4 & Q5 & Q6 & Q7 & Q8).
+      rewrite P3 in Q1, Q3, Q4, Q5, Q6, Q8.
       split.
       { intros pl [<-|Hin]; [|apply Q1; auto]. cbn [fst snd]. unfold pgood in *.
         rewrite (Q2 p Hnotin). exact P1. }
@@ -224,7 +245,10 @@ Section Path.
         apply P2. intros ->. apply Hn. left; reflexivity. }
       split; [lia|]. split.
       { intros P. rewrite Q4, P4. cbn [map flat_map snd]. rewrite sum_z_cons, effs_app, <- eff_add. lia. }
-      split; [|split; [rewrite Q6, P6; reflexivity|congruence]].
+      split; [|split; [rewrite Q6, P6; reflexivity|split; [congruence|]]].
+      2:{ intros Hnm. cbn [existsb snd]. eapply KR_trans.
+          - apply P8. intros Hm l Hl. apply (Hnm Hm (p, seq) l (or_introl eq_refl) Hl).
+          - apply Q8. intros Hm pl l Hpl. apply (Hnm Hm pl l (or_intror Hpl)). }
       intros T Hok HtT Hvals. apply Q5; auto.
       + apply (P5 T Hok HtT). intros Hm l Hl Ho Hmv. exact (Hvals Hm (p, seq) l (or_introl eq_refl) Hl Ho Hmv).
       + intros Hm pl l Hpl Hl Ho Hmv. apply (Hvals Hm pl l (or_intror Hpl) Hl Ho Hmv).
